@@ -618,6 +618,8 @@ Proof.
   match goal with Q : all_free _ _ _ = Ok true |- _ => apply all_free_cons in Q; destruct Q as (Fa & Q); apply all_free_cons in Q; destruct Q as (Fb & Q); apply all_free_cons in Q; destruct Q as (Fc & _) end.
   destruct Fa as [Fa|(_ & Fa)]; [lia|]. destruct Fb as [Fb|(_ & Fb)]; [lia|]. destruct Fc as [Fc|(_ & Fc)]; [lia|].
   mstep H. mstep H. vtx_created. subst.
+  pose proof (prev_c_rng a f Ha) as Hpa.
+  mstep H. vtx_created. subst. mstep H.
   mstep H. mstep H. mstep H. prim. subst. sproj.
   mstep H. mstep H. mstep H. prim. subst. sproj.
   mstep H. vtx_created. mstep H. prim. subst. sproj.
